@@ -789,6 +789,7 @@ def apply_fn(name: str, args: Tuple[Rat, ...], array: Optional[bool] = None, ext
     return _fn_atom(name, tuple(args), array, extra)
 
 
+ELEMENTWISE_FNS = {"abs", "sqrt", "log", "max", "min", "pow", "exp"}
 LENGTH_HOOK = None        # set by the evaluator in use: Rat array -> its length (for end-relative positions)
 
 
@@ -801,6 +802,31 @@ def opaque(name: str, *args: Rat, array: Optional[bool] = None, extra=None) -> R
             back = None
         if back is not None and back < 0 and Fraction(back).denominator == 1:
             args = (args[0], Rat.const(back))
+    if name == "slice" and len(args) == 3:
+        arr = args[0]
+        at_ = arr.atoms()
+        if not (len(at_) == 1 and arr.equals(Rat.from_atom(at_[0])) and not (at_[0].kind == "fn" and at_[0].name in ELEMENTWISE_FNS)) and arr.is_array():
+            # a slice of an element-wise expression is the expression of the slices: f(u, v)[a:b] = f(u[a:b], v[a:b])
+            # (one normal form: slices innermost)
+            lo_r, hi_r = args[1], args[2]
+
+            def push(a_):
+                if a_.kind == "fn" and a_.name in ELEMENTWISE_FNS:
+                    return apply_fn(a_.name, tuple(dist(x_) if x_.is_array() else x_ for x_ in a_.args), True, a_.extra)
+                return opaque("slice", Rat.from_atom(a_), lo_r, hi_r, array=True)
+
+            def top(p_):
+                acc = Rat.const(0)
+                for m_, c_ in p_.items():
+                    term = Rat.const(c_)
+                    for a_, e_ in m_:
+                        term = term.mul((push(a_) if a_.array else Rat.from_atom(a_)).pow(e_))
+                    acc = acc.add(term)
+                return acc
+
+            def dist(r_):
+                return top(r_.num).div(top(r_.den))
+            return dist(arr)
     if name == "slice" and len(args) == 3 and LENGTH_HOOK is not None and args[1].is_zero() and args[2].symbols() != {"None"}:
         # x[0:len(x)] is x
         try:
